@@ -782,6 +782,7 @@ pub fn exec_real<K: KeyT, V: ValT, const N: usize>(
             let mut items = Vec::new();
             let mut refs = Vec::new();
             m.retain(|k, v| {
+                pl::tick(pl::Cb::Pred);
                 calls += 1;
                 let kd = k.kd();
                 let vd = v.vd();
@@ -958,6 +959,7 @@ fn exec_entry<K: KeyT, V: ValT, const N: usize>(
             let mut calls = 0u32;
             let res = catch_unwind(AssertUnwindSafe(|| {
                 let r = m.entry(key).or_insert_with(|| {
+                    pl::tick(pl::Cb::Closure);
                     calls += 1;
                     val
                 });
@@ -978,6 +980,7 @@ fn exec_entry<K: KeyT, V: ValT, const N: usize>(
             let mut seen = None;
             let res = catch_unwind(AssertUnwindSafe(|| {
                 let r = m.entry(key).or_insert_with_key(|k| {
+                    pl::tick(pl::Cb::Closure);
                     calls += 1;
                     seen = Some(k.kd());
                     val
@@ -1013,6 +1016,7 @@ fn exec_entry<K: KeyT, V: ValT, const N: usize>(
                 let r = m
                     .entry(key)
                     .and_modify(|x| {
+                        pl::tick(pl::Cb::Closure);
                         calls += 1;
                         *x = v1;
                     })
